@@ -24,11 +24,14 @@
      recovered uniquely from the signed bytes.  Unforgeability of Schnorr is the
      content of the knowledge relation of TlsProofs.v, not of this file.
 
-   Two defects of the pinned code are kept as parameters ([fixes]):
+   Three defects of the pinned code are kept as parameters ([fixes]):
      fix_f09  : the dialler also requires the key decoded from the CN (the one the
                 signature is checked against) to be the key it dialled      (F09)
      fix_bind : the signed bytes also cover the certificate's TLS public key,
-                so a proof cannot be moved to another TLS endpoint (relay). *)
+                so a proof cannot be moved to another TLS endpoint (relay).
+     fix_nokey: receiveServerIdentity refuses an identity message without a public
+                key instead of calling Equal(nil) on it (nil interface conversion:
+                the process dies).                                                 *)
 From Coq Require Import List Bool Arith ZArith.
 Import ListNotations.
 
@@ -71,8 +74,8 @@ Inductive rawcert := RawOne (c : cert) | RawMany | RawJunk.
    handshake with *)
 Inductive hello := Hello (chain : list rawcert) (hskey : tkey).
 
-Record fixes := mkfixes { fix_f09 : bool; fix_bind : bool }.
-Definition pinned := mkfixes false false.
+Record fixes := mkfixes { fix_f09 : bool; fix_bind : bool; fix_nokey : bool }.
+Definition pinned := mkfixes false false false.
 
 Inductive reason :=
 | RCount | RParse | RX509 | RExpected | RNoSig | RCnDecode | RBadSig | RNoCert | RTlsKey.
@@ -191,8 +194,11 @@ Definition tls_handshake (fx : fixes) (s : suite) (now : Z) (n : nonce) (them : 
 
 (* ---------- receiveServerIdentity ------------------------------------------ *)
 
-(* first message on an accepted connection *)
-Inductive ident := IdMatch | IdKey (k : key) | IdWrongType.
+(* first message on an accepted connection: an identity declaring the key of
+   the CN / another key, some other message type, an identity whose public-key
+   field is not a point (undecodable: Receive fails), an identity WITHOUT the
+   public-key field (decodes, Public == nil) *)
+Inductive ident := IdMatch | IdKey (k : key) | IdWrongType | IdBadKey | IdNoKey.
 
 Definition leaf (h : hello) : option cert :=
   match h with Hello (RawOne c :: _) _ => Some c | _ => None end.
@@ -201,7 +207,7 @@ Definition declared (s : suite) (c : cert) (id : ident) : option key :=
   match id with
   | IdMatch => key_of_cn s (c_cn c)
   | IdKey k => Some k
-  | IdWrongType => None
+  | IdWrongType | IdBadKey | IdNoKey => None
   end.
 
 (* pubFromCN(PeerCertificates[0].Subject.CommonName).Equal(dst.Public) *)
@@ -222,32 +228,42 @@ Definition them_of (r : role) : option key :=
 Record outcome := mkout {
   out_hs : bool;             (* handshake / verifier accepted *)
   out_disp : nat;            (* application messages dispatched by the honest router *)
-  out_stamp : list key       (* public key of the identity stamped on each of them *)
+  out_stamp : list key;      (* public key of the identity stamped on each of them *)
+  out_crash : bool           (* the honest process panicked *)
 }.
+
+(* receiveServerIdentity on an identity without public key: the CN is decoded
+   first (error -> dropped), then pub.Equal(nil) panics *)
+Definition nokey_crashes (fx : fixes) (s : suite) (c : cert) (id : ident) : bool :=
+  match id with
+  | IdNoKey => negb (fix_nokey fx) && match key_of_cn s (c_cn c) with Some _ => true | None => false end
+  | _ => false
+  end.
 
 Definition chain_of (h : hello) : list rawcert := match h with Hello ch _ => ch end.
 
 Definition link (fx : fixes) (lv : level) (r : role) (s : suite) (h : hello)
            (id : ident) (msgs : nat) : outcome :=
   match lv with
-  | LUnit => mkout (accepted (verify fx s 0 0 (them_of r) (chain_of h))) 0 []
+  | LUnit => mkout (accepted (verify fx s 0 0 (them_of r) (chain_of h))) 0 [] false
   | LTls =>
       if accepted (tls_handshake fx s 0 0 (them_of r) h) then
         match r with
-        | RDial e => mkout true msgs (repeat e msgs)     (* packet.ServerIdentity = the dialled identity *)
+        | RDial e => mkout true msgs (repeat e msgs) false  (* packet.ServerIdentity = the dialled identity *)
         | RAccept =>
             match leaf h with
             | Some c =>
+                if nokey_crashes fx s c id then mkout true 0 [] true else
                 if router_accepts s c id then
                   match declared s c id with
-                  | Some d => mkout true msgs (repeat d msgs)
-                  | None => mkout true 0 []
+                  | Some d => mkout true msgs (repeat d msgs) false
+                  | None => mkout true 0 [] false
                   end
-                else mkout true 0 []                     (* connection closed, nothing dispatched *)
-            | None => mkout true 0 []
+                else mkout true 0 [] false               (* connection closed, nothing dispatched *)
+            | None => mkout true 0 [] false
             end
         end
-      else mkout false 0 []
+      else mkout false 0 [] false
   end.
 
 (* ---------- the property, as a boolean checker over an OBSERVATION ---------- *)
